@@ -211,8 +211,8 @@ PROPS['C07'] = dict(
           J('h_poseidon', 'fast5', 1, 1, only='c07.lengths', wq=8, wt=16, args=['--enumerate', '--level', '1'], tiers=['thorough'], tag='enum'),
           J('h_poseidon', 'fast2', 1, 1, only='c07.huge', wq=1, wt=4, args=['--enumerate', '--level', '0'], tiers=['quick'], tag='huge'),
           J('h_poseidon', 'fast2', 1, 1, only='c07.huge', wq=1, wt=4, args=['--enumerate', '--level', '1'], tiers=['thorough'], tag='huge'),
-          J('h_poseidon', 'fast5', 40_000, 4_000_000, only='c07.random', wq=8, wt=16, tag='rnd'),
-          J('h_poseidon', 'fast2', 10_000, 1_000_000, only='c07.random', wq=4, wt=8, tag='rnd', class_prefix='avx2-build:'),
+          J('h_poseidon', 'fast5', 40_000, 1_500_000, only='c07.random', wq=8, wt=16, tag='rnd'),
+          J('h_poseidon', 'fast2', 10_000, 400_000, only='c07.random', wq=4, wt=16, tag='rnd', class_prefix='avx2-build:'),
           # "read exactly the declared input length", byte-exact: the same lengths on the AddressSanitizer builds with exact-size inputs (a read that stays
           # inside the last 32-byte lane never reaches the guard page of the plain builds)
           J('h_poseidon', 'san5', 1, 1, only='c07.lengths', wq=8, wt=16, args=['--enumerate', '--level', '0'], tag='asan', class_prefix='asan-build:'),
